@@ -605,6 +605,25 @@ func c12BuildPop(seed int64, idx int) (*c12Pop, error) {
 	if err := pull(r1); err != nil {
 		return fail(err)
 	}
+	// both replicas now hold everything and their clocks are aligned: concurrent edits of different bugs get the
+	// same logical edit times, with last-edit timestamps in the opposite order of the creation timestamps
+	// (r0 edits recently created bugs first, then r1 edits old ones)
+	if err := r1.Push("origin"); err != nil {
+		return fail(err)
+	}
+	if err := pull(r0); err != nil {
+		return fail(err)
+	}
+	for k := 0; k < 3 && k < nBugs/2; k++ {
+		if err := w.Edit(r0, ids[len(ids)-1-k], randomSpecs(1)); err != nil {
+			return fail(fmt.Errorf("concurrent edit on r0: %w", err))
+		}
+	}
+	for k := 0; k < 3 && k < nBugs/2; k++ {
+		if err := w.Edit(r1, ids[k], randomSpecs(1)); err != nil {
+			return fail(fmt.Errorf("concurrent edit on r1: %w", err))
+		}
+	}
 	for k := 0; k < nBugs/3; k++ {
 		if err := w.Edit(r1, ids[rng.Intn(len(ids))], randomSpecs(1+rng.Intn(2))); err != nil {
 			return fail(fmt.Errorf("edit on r1: %w", err))
@@ -1164,8 +1183,8 @@ func c12RunPop(r obsSink, pc c12PopCase) {
 // c12Eval runs every population in a child process: the cache build runs in goroutines started by
 // git-bug, where a crash cannot be recovered by the caller.
 func c12Eval(r *mon.Run) {
-	nPop := r.Pick(3, 30)
-	nQ := r.Pick(300, 20_000)
+	nPop := r.Pick(16, 60)
+	nQ := r.Pick(200, 10_000)
 	cases := make([]c12PopCase, nPop)
 	for k := range cases {
 		cases[k] = c12PopCase{Seed: r.Seed, Idx: k, Queries: nQ}
@@ -1253,7 +1272,7 @@ func runC12(tier, replay string) int {
 		r.Pick(800, 5000), []string{
 			"documented language = doc/queries.md plus metadata:key:value; values are words or double-quoted multi-word strings without quotes/colons; qualifiers in lower case",
 			"no sort qualifier: the order of the result is not checked (the documentation does not state a default)",
-			"creation/edit order is checked on the logical (Lamport) time only; the order among equal logical times is unconstrained (unix-time tie-breaks are only counted)",
+			"creation/edit order is checked on (logical time, timestamp of creation resp. last edit); the order among bugs equal on both is unconstrained",
 			"full-text terms are planted marker tokens [a-z]{2}[0-9]{2}[a-z]{2}; a bug matches when a title/comment contains the token as a word; with several terms anything between all-terms and any-term is accepted",
 			"metadata queries use only keys set on the create operation itself; labels in the populations have no case variants",
 			"reference data: from-scratch bug.Read+Compile of every bug, Lamport times from the independent gitraw reader",
